@@ -1,13 +1,20 @@
 /-
-  C06 for grid, the partial theorem.  `compute_grid_layout` uses an absolutely positioned child in three places:
-    (1) step 3, the grid size estimate, iterates over ALL box-generating children — the grid lines of an absolutely
-        positioned child enter the implicit track counts (this is what makes `AlgAbsBlind gridAlg` false);
-    (2) the hidden/absolute loop resolves the child's grid lines against the final track counts (may panic) and lays it
-        out in the resulting area;
-    (3) its contribution enters `content_size` only.
-  If the absolutely positioned children of the two lists agree on their grid lines (`LinesAgree`; in particular if all
-  have `auto` lines), the two programs are equal up to the calls/layouts addressed to those children and the outputs
-  are equal up to `content_size`.
+  C06 for grid.  Since the repair "absolutely positioned children do not create implicit tracks" `compute_grid_layout`
+  uses an absolutely positioned child in two places only:
+    (1) the hidden/absolute loop resolves the child's grid lines against the final track counts — a line outside the
+        implicit grid is `None` (= auto) — and lays the child out in the resulting area;
+    (2) its contribution enters `content_size` only.
+  The size estimate (step 3) and placement (step 4) no longer see it.  What is left of its grid lines is the CHECKED
+  i16 arithmetic of (1) (`into_origin_zero_line`, `OriginZeroLine + u16`, the casts of `try_into_track_vec_index`): a
+  line such as `32767 / span 2` panics in a debug build (`overflow` in the model), and a run that panics lays out
+  nothing more.  Hence:
+
+    `gridAlg_relW`        for child-style lists that agree except at absolutely positioned boxes (`AgreeA`) the two
+                          programs are related UP TO PANICS (`GridRel.GRelW`), unconditionally;
+    `gridAlg_absEquiv_noErr`   … and so `AbsEquiv` when neither run can panic;
+    `gridAlg_absEquiv`    `AbsEquiv`, panics included, when the absolutely positioned boxes have the same grid lines
+                          (`LinesAgree`; the statement that was the partial theorem before the repair);
+    `gridAlg_absEquiv_autoR` / `_autoL`  one side may have any lines if it cannot panic and the other has `auto` lines.
 -/
 import TaffyVerif.Lemmas.GridBoxTop2
 import TaffyVerif.Model.GridEval
@@ -18,10 +25,25 @@ namespace GridAbs
 open GridModel GridTracks GridRel GridStages C06
 variable {α : Type} [Num α] [NumCast α]
 
+abbrev autoLine : Line GridPlacement.Placement := ⟨.auto, .auto⟩
+
 /-- the absolutely positioned children of the two lists have the same `grid_row` / `grid_column` -/
 def LinesAgree : List (Style α) → List (Style α) → Prop
   | [], [] => True
   | x :: xs, y :: ys => (absVis x → y.grid.row = x.grid.row ∧ y.grid.column = x.grid.column) ∧ LinesAgree xs ys
+  | _, _ => False
+
+/-- both grid lines `auto` -/
+def AutoL (s : Style α) : Prop := s.grid.row = autoLine ∧ s.grid.column = autoLine
+
+/-- what is asked of a pair of absolutely positioned boxes at the same index, in a world that tolerates panics on the
+left (`eL`) / on the right (`eR`): the same lines, or on each side: panics tolerated or `auto` lines -/
+def PairOk (eL eR : Prop) (x y : Style α) : Prop :=
+  (y.grid.row = x.grid.row ∧ y.grid.column = x.grid.column) ∨ ((eL ∨ AutoL x) ∧ (eR ∨ AutoL y))
+
+def LinesOk (eL eR : Prop) : List (Style α) → List (Style α) → Prop
+  | [], [] => True
+  | x :: xs, y :: ys => (absVis x → PairOk eL eR x y) ∧ LinesOk eL eR xs ys
   | _, _ => False
 
 /-! ### one-sided steps -/
@@ -67,7 +89,7 @@ theorem GRel.optOffset (ts : List (GridTrack α)) (i : Option Int) (d : α) :
   | none => exact GRel.pure rfl
   | some i => exact GRel.trackOffset _ _
 
-/-- the absolute branch of the loop for two different `abs` children with the same grid lines -/
+/-- the absolute branch of the loop for two different `abs` children with the same grid lines: panics included -/
 theorem absStep_oneSided {i : Nat} (hi : w.abs i) (a b : GridChildStyle α) (hr : b.gridRow = a.gridRow)
     (hc : b.gridColumn = a.gridColumn) (c : Ctx α) (bb : Size α) (rows cols : List (GridTrack α))
     (cc rc : GridPlacement.TrackCounts) (order : Nat) (acc acc' : Size α) :
@@ -89,7 +111,111 @@ theorem absStep_oneSided {i : Nat} (hi : w.abs i) (a b : GridChildStyle α) (hr 
   refine GRel.bind (alignAndPositionItem_oneSided hi _ _ _ _ _ _ _ _ _ _ _ _) fun _ _ _ => ?_
   exact GRel.pure trivial
 
-/-! ### the pointwise relation from `AgreeA` + `LinesAgree` -/
+/-! ### the grid area of an absolutely positioned child: a value or a panic, no child call -/
+
+/-- the part of `absStep` before `align_and_position_item` -/
+def absArea (c : Ctx α) (containerBorderBox : Size α) (rows columns : List (GridTrack α))
+    (colCounts rowCounts : GridPlacement.TrackCounts) (cs : GridChildStyle α) : GM α (Rect α) := do
+  let colIdx ← GM.ofOutcome (absTrackIndexes cs.gridColumn colCounts)
+  let rowIdx ← GM.ofOutcome (absTrackIndexes cs.gridRow rowCounts)
+  let top ← optOffset rows rowIdx.start c.border.top
+  let bottom ← optOffset rows rowIdx.end (containerBorderBox.height - c.border.bottom - c.scrollbarGutter.y)
+  let left ← optOffset columns colIdx.start c.border.left
+  let right ← optOffset columns colIdx.end (containerBorderBox.width - c.border.right - c.scrollbarGutter.x)
+  pure { top, bottom, left, right }
+
+theorem absStep_eq (c : Ctx α) (bb : Size α) (rows cols : List (GridTrack α)) (cc rc : GridPlacement.TrackCounts)
+    (cs : GridChildStyle α) (i order : Nat) (acc : Size α) :
+    absStep c bb rows cols cc rc cs i order acc =
+      absArea c bb rows cols cc rc cs >>= fun area =>
+        alignAndPositionItem i cs.base order area c.justifyItems c.alignItems 0 >>= fun r => pure (acc.f32Max r.1) := by
+  unfold absStep absArea
+  simp only [bind_assoc, pure_bind]
+
+/-- a `GM` program without interaction: a value or a panic -/
+def IsVal {β : Type} (p : GM α β) : Prop := (∃ a, p = pure a) ∨ (∃ e, p = throw e)
+
+theorem IsVal.bind {β γ : Type} {p : GM α β} {f : β → GM α γ} (hp : IsVal p) (hf : ∀ a, IsVal (f a)) :
+    IsVal (p >>= f) := by
+  rcases hp with ⟨a, rfl⟩ | ⟨e, rfl⟩
+  · exact hf a
+  · exact Or.inr ⟨e, rfl⟩
+
+theorem IsVal.ofOutcome {β : Type} (o : GridPlacement.Outcome β) : IsVal (GM.ofOutcome o : GM α β) := by
+  cases o with
+  | ok a => exact Or.inl ⟨a, rfl⟩
+  | panic m => exact Or.inr ⟨_, rfl⟩
+  | overflow => exact Or.inr ⟨_, rfl⟩
+  | outOfFuel => exact Or.inr ⟨_, rfl⟩
+
+theorem IsVal.optOffset (ts : List (GridTrack α)) (i : Option Int) (d : α) : IsVal (optOffset ts i d) := by
+  unfold GridModel.optOffset
+  cases i with
+  | none => exact Or.inl ⟨d, rfl⟩
+  | some i =>
+    show IsVal (GridModel.trackOffset ts i.toNat)
+    unfold GridModel.trackOffset
+    cases ts[i.toNat]? with
+    | none => exact Or.inr ⟨_, rfl⟩
+    | some t => exact Or.inl ⟨_, rfl⟩
+
+theorem absArea_isVal (c : Ctx α) (bb : Size α) (rows cols : List (GridTrack α)) (cc rc : GridPlacement.TrackCounts)
+    (cs : GridChildStyle α) : IsVal (absArea c bb rows cols cc rc cs) := by
+  unfold absArea
+  refine IsVal.bind (IsVal.ofOutcome _) fun _ => ?_
+  refine IsVal.bind (IsVal.ofOutcome _) fun _ => ?_
+  refine IsVal.bind (IsVal.optOffset _ _ _) fun _ => ?_
+  refine IsVal.bind (IsVal.optOffset _ _ _) fun _ => ?_
+  refine IsVal.bind (IsVal.optOffset _ _ _) fun _ => ?_
+  refine IsVal.bind (IsVal.optOffset _ _ _) fun _ => ?_
+  exact Or.inl ⟨_, rfl⟩
+
+/-- `auto` lines resolve to `(None, None)` whatever the track counts -/
+theorem absTrackIndexes_auto (counts : GridPlacement.TrackCounts) :
+    absTrackIndexes ⟨.auto, .auto⟩ counts = .ok ⟨none, none⟩ := rfl
+
+/-- with `auto` lines in both axes the area is the padding box, whatever the tracks: no panic -/
+theorem absArea_auto (c : Ctx α) (bb : Size α) (rows cols : List (GridTrack α)) (cc rc : GridPlacement.TrackCounts)
+    (cs : GridChildStyle α) (hr : cs.gridRow = autoLine) (hc : cs.gridColumn = autoLine) :
+    ∃ area, absArea c bb rows cols cc rc cs = pure area := by
+  unfold absArea
+  rw [hr, hc, absTrackIndexes_auto, absTrackIndexes_auto]
+  exact ⟨_, rfl⟩
+
+/-- **the absolute branch of the loop for two arbitrary `abs` children, up to panics**: on each side either a panic is
+tolerated or the area is a value -/
+theorem absStep_weak {i : Nat} (hi : w.abs i) (a b : GridChildStyle α) (c : Ctx α) (bb : Size α)
+    (rows cols : List (GridTrack α)) (cc rc : GridPlacement.TrackCounts) (order : Nat) (acc acc' : Size α)
+    (hA : w.errL ∨ ∃ area, absArea c bb rows cols cc rc a = pure area)
+    (hB : w.errR ∨ ∃ area, absArea c bb rows cols cc rc b = pure area) :
+    GRelW w (fun _ _ => True) (absStep c bb rows cols cc rc a i order acc)
+      (absStep c bb rows cols cc rc b i order acc') := by
+  rw [absStep_eq, absStep_eq]
+  have hstep : ∀ (ra rb : Rect α), GRelW w (fun _ _ => True)
+      ((pure ra : GM α (Rect α)) >>= fun area =>
+        alignAndPositionItem i a.base order area c.justifyItems c.alignItems 0 >>= fun r => pure (acc.f32Max r.1))
+      ((pure rb : GM α (Rect α)) >>= fun area =>
+        alignAndPositionItem i b.base order area c.justifyItems c.alignItems 0 >>= fun r => pure (acc'.f32Max r.1)) := by
+    intro ra rb
+    rw [pure_bind, pure_bind]
+    exact GRelW.of_GRel (GRel.bind (alignAndPositionItem_oneSided hi _ _ _ _ _ _ _ _ _ _ _ _) fun _ _ _ =>
+      GRel.pure trivial)
+  rcases absArea_isVal c bb rows cols cc rc a with ⟨ra, ha⟩ | ⟨ea, ha⟩
+  · rcases absArea_isVal c bb rows cols cc rc b with ⟨rb, hb⟩ | ⟨eb, hb⟩
+    · rw [ha, hb]
+      exact hstep ra rb
+    · rw [hb]
+      rcases hB with hr | ⟨area, harea⟩
+      · exact GRelW.throwR hr eb _
+      · rw [hb] at harea
+        cases harea
+  · rw [ha]
+    rcases hA with hl | ⟨area, harea⟩
+    · exact GRelW.throwL hl ea _
+    · rw [ha] at harea
+      cases harea
+
+/-! ### the pointwise relation from `AgreeA` + `LinesOk` -/
 
 theorem display_beq_none (d : Display) : (d == Display.none) = true ↔ d = Display.none := by
   cases d <;> decide
@@ -111,15 +237,27 @@ theorem flags_of_absVis {s : Style α} (h : absVis s) :
   | false => rfl
   | true => exact absurd ((display_beq_none _).1 hh) h.2
 
-theorem childOK_agree (abs : Nat → Prop) (i : Nat) (x y : Style α)
+/-- the world of C06 with tolerated panics is as good as the world of C06 -/
+theorem World.absE_good (abs : Nat → Prop) (eL eR : Prop) :
+    (World.absE abs eL eR : World α).Good (fun _ _ => True) C06.OutEqv where
+  size := fun _ _ h => h.1
+  baselines := fun _ _ h => h.2.1
+  lay := fun _ _ _ _ => ⟨rfl, rfl, rfl, rfl, rfl, rfl, rfl⟩
+  rlRefl := fun l => C06.LayEqv.refl l
+  rc0 := trivial
+  rcStep := fun _ _ _ _ _ _ _ => trivial
+  out := fun _ _ _ _ _ => ⟨rfl, rfl, rfl, rfl, rfl⟩
+  outRefl := fun o => C06.OutEqv.refl o
+
+theorem childOK_agree (abs : Nat → Prop) (eL eR : Prop) (i : Nat) (x y : Style α)
     (h : (absVis x ∧ absVis y) ∨ (¬ absVis x ∧ x = y))
-    (hl : absVis x → y.grid.row = x.grid.row ∧ y.grid.column = x.grid.column) (habs : abs i ↔ absVis x) :
-    ChildOK (World.absW abs : World α) (fun _ => false) (fun _ _ => True) i (GridChildStyle.ofStyle x)
+    (hl : absVis x → PairOk eL eR x y) (habs : abs i ↔ absVis x) :
+    ChildOK (World.absE abs eL eR : World α) (fun _ => false) (fun _ _ => True) i (GridChildStyle.ofStyle x)
       (GridChildStyle.ofStyle y) := by
   rcases h with ⟨hx, hy⟩ | ⟨hx, rfl⟩
   · obtain ⟨hx1, hx2⟩ := flags_of_absVis hx
     obtain ⟨hy1, hy2⟩ := flags_of_absVis hy
-    have hi : (World.absW abs : World α).abs i := habs.2 hx
+    have hi : (World.absE abs eL eR : World α).abs i := habs.2 hx
     refine ⟨hy1.trans hx1.symm, hy2.trans hx2.symm, fun hh => ?_, fun hn => absurd hi hn, fun _ hp => ?_,
       fun _ _ c bb rows cols cc rc order acc acc' _ => ?_⟩
     · rw [show (GridChildStyle.ofStyle x).base.isHidden = x.isHidden from rfl, hx1] at hh
@@ -127,71 +265,123 @@ theorem childOK_agree (abs : Nat → Prop) (i : Nat) (x y : Style α)
     · rw [show ((GridChildStyle.ofStyle x).base.position == Position.absolute) = (x.position == Position.absolute)
         from rfl, hx2] at hp
       cases hp
-    · exact absStep_oneSided hi _ _ (hl hx).1 (hl hx).2 c bb rows cols cc rc order acc acc'
-  · have hn : ¬ (World.absW abs : World α).abs i := fun hi => hx (habs.1 hi)
+    · rcases hl hx with ⟨h1, h2⟩ | ⟨hA, hB⟩
+      · exact GRelW.of_GRel (absStep_oneSided hi _ _ h1 h2 c bb rows cols cc rc order acc acc')
+      · refine absStep_weak hi _ _ c bb rows cols cc rc order acc acc' ?_ ?_
+        · rcases hA with e | ⟨a1, a2⟩
+          · exact Or.inl e
+          · exact Or.inr (absArea_auto c bb rows cols cc rc _ a1 a2)
+        · rcases hB with e | ⟨a1, a2⟩
+          · exact Or.inl e
+          · exact Or.inr (absArea_auto c bb rows cols cc rc _ a1 a2)
+  · have hn : ¬ (World.absE abs eL eR : World α).abs i := fun hi => hx (habs.1 hi)
     refine ⟨rfl, rfl, fun _ => hn, fun _ _ _ _ _ _ => rfl, fun _ _ => ⟨hn, rfl, rfl, fun _ _ _ _ => ?_⟩,
       fun hh hp => absurd (absVis_of_flags hh hp) hx⟩
     rw [phi_false]
 
-theorem childrenOK_agree (abs : Nat → Prop) : ∀ (xs ys : List (Style α)) (n : Nat), AgreeA xs ys → LinesAgree xs ys →
-    (∀ j x, xs[j]? = some x → (abs (n + j) ↔ absVis x)) →
-    ChildrenOK (World.absW abs : World α) (fun _ => false) (fun _ _ => True) n (xs.map GridChildStyle.ofStyle)
+theorem childrenOK_agree (abs : Nat → Prop) (eL eR : Prop) : ∀ (xs ys : List (Style α)) (n : Nat), AgreeA xs ys →
+    LinesOk eL eR xs ys → (∀ j x, xs[j]? = some x → (abs (n + j) ↔ absVis x)) →
+    ChildrenOK (World.absE abs eL eR : World α) (fun _ => false) (fun _ _ => True) n (xs.map GridChildStyle.ofStyle)
       (ys.map GridChildStyle.ofStyle)
   | [], [], _, _, _, _ => trivial
   | [], _ :: _, _, h, _, _ => by simp only [AgreeA] at h
   | _ :: _, [], _, h, _, _ => by simp only [AgreeA] at h
   | x :: xs, y :: ys, n, h, hl, habs => by
     simp only [AgreeA] at h
-    simp only [LinesAgree] at hl
+    simp only [LinesOk] at hl
     simp only [List.map_cons, ChildrenOK]
-    refine ⟨childOK_agree abs n x y h.1 hl.1 (by simpa using habs 0 x rfl),
-      childrenOK_agree abs xs ys (n + 1) h.2 hl.2 fun j x' hx' => ?_⟩
+    refine ⟨childOK_agree abs eL eR n x y h.1 hl.1 (by simpa using habs 0 x rfl),
+      childrenOK_agree abs eL eR xs ys (n + 1) h.2 hl.2 fun j x' hx' => ?_⟩
     have := habs (j + 1) x' (by simpa using hx')
     rw [← this]
     have e : n + 1 + j = n + (j + 1) := by omega
     rw [e]
 
-theorem boxChildren_agree : ∀ (xs ys : List (Style α)), AgreeA xs ys → LinesAgree xs ys →
+/-- the size estimate does not see absolutely positioned children at all -/
+theorem boxChildren_agree : ∀ (xs ys : List (Style α)), AgreeA xs ys →
     boxChildren (ys.map GridChildStyle.ofStyle) = boxChildren (xs.map GridChildStyle.ofStyle)
-  | [], [], _, _ => rfl
-  | [], _ :: _, h, _ => by simp only [AgreeA] at h
-  | _ :: _, [], h, _ => by simp only [AgreeA] at h
-  | x :: xs, y :: ys, h, hl => by
+  | [], [], _ => rfl
+  | [], _ :: _, h => by simp only [AgreeA] at h
+  | _ :: _, [], h => by simp only [AgreeA] at h
+  | x :: xs, y :: ys, h => by
     simp only [AgreeA] at h
-    simp only [LinesAgree] at hl
-    have ih := boxChildren_agree xs ys h.2 hl.2
-    unfold boxChildren at ih ⊢
+    have ih := boxChildren_agree xs ys h.2
+    rw [List.map_cons, List.map_cons, boxChildren_cons, boxChildren_cons, ih]
     rcases h.1 with ⟨hx, hy⟩ | ⟨_, rfl⟩
-    · obtain ⟨hx1, _⟩ := flags_of_absVis hx
-      obtain ⟨hy1, _⟩ := flags_of_absVis hy
-      have e1 : (GridChildStyle.ofStyle x).base.isHidden = false := hx1
-      have e2 : (GridChildStyle.ofStyle y).base.isHidden = false := hy1
-      have e3 : (GridChildStyle.ofStyle y).gridRow = (GridChildStyle.ofStyle x).gridRow := (hl.1 hx).1
-      have e4 : (GridChildStyle.ofStyle y).gridColumn = (GridChildStyle.ofStyle x).gridColumn := (hl.1 hx).2
-      simp only [List.map_cons, List.filter_cons, e1, e2, Bool.not_false, if_true, e3, e4, ih]
-    · simp only [List.map_cons, List.filter_cons]
-      split
-      · simp only [List.map_cons, ih]
-      · exact ih
+    · obtain ⟨_, hx2⟩ := flags_of_absVis hx
+      obtain ⟨_, hy2⟩ := flags_of_absVis hy
+      have e1 : ((GridChildStyle.ofStyle x).base.position != Position.absolute) = false := by
+        show (!(x.position == Position.absolute)) = false
+        rw [hx2]; rfl
+      have e2 : ((GridChildStyle.ofStyle y).base.position != Position.absolute) = false := by
+        show (!(y.position == Position.absolute)) = false
+        rw [hy2]; rfl
+      rw [e1, e2, Bool.and_false, Bool.and_false]
+      rfl
+    · rfl
 
-/-- **the partial theorem, relational form** -/
-theorem gridAlg_absEquiv (style : Style α) (xs ys : List (Style α)) (inp : LayoutInput α) (h : AgreeA xs ys)
-    (hl : LinesAgree xs ys) :
-    AbsEquiv (absIdx xs) OutEqv (gridAlg style xs inp) (gridAlg style ys inp) := by
-  have hrel := computeGridLayoutE_rel (World.absW_good (α := α) (absIdx xs)) (readers_false (α := α))
+theorem absIdx_iff (xs : List (Style α)) (j : Nat) (x : Style α) (hx : xs[j]? = some x) :
+    absIdx xs (0 + j) ↔ absVis x := by
+  rw [Nat.zero_add]
+  constructor
+  · rintro ⟨x', hx', hv⟩
+    rw [hx] at hx'
+    cases hx'
+    exact hv
+  · intro hv
+    exact ⟨x, hx, hv⟩
+
+/-- **related up to panics**: child-style lists that agree except at absolutely positioned boxes, with `LinesOk` -/
+theorem computeGridLayoutE_relW_agree (eL eR : Prop) (style : Style α) (xs ys : List (Style α)) (inp : LayoutInput α)
+    (h : AgreeA xs ys) (hl : LinesOk eL eR xs ys) :
+    GRelW (World.absE (absIdx xs) eL eR : World α) OutEqv
+      (computeGridLayoutE (GridStyle.ofStyle style) (xs.map GridChildStyle.ofStyle) inp)
+      (computeGridLayoutE (GridStyle.ofStyle style) (ys.map GridChildStyle.ofStyle) inp) :=
+  computeGridLayoutE_relW (World.absE_good (α := α) (absIdx xs) eL eR) (readers_false (α := α))
     (GridStyle.ofStyle style) (xs.map GridChildStyle.ofStyle) (ys.map GridChildStyle.ofStyle) inp
-    (childrenOK_agree (absIdx xs) xs ys 0 h hl fun j x hx => by
-      rw [Nat.zero_add]
-      constructor
-      · rintro ⟨x', hx', hv⟩
-        rw [hx] at hx'
-        cases hx'
-        exact hv
-      · intro hv
-        exact ⟨x, hx, hv⟩)
-    (fun ec er => by rw [boxChildren_agree xs ys h hl])
+    (childrenOK_agree (absIdx xs) eL eR xs ys 0 h hl (absIdx_iff xs))
+    (fun ec er => by rw [boxChildren_agree xs ys h])
+
+/-- in the world that tolerates panics on both sides no condition on the lines is left -/
+theorem linesOk_both : ∀ (xs ys : List (Style α)), AgreeA xs ys → LinesOk True True xs ys
+  | [], [], _ => trivial
+  | [], _ :: _, h => by simp only [AgreeA] at h
+  | _ :: _, [], h => by simp only [AgreeA] at h
+  | x :: xs, y :: ys, h => by
+    simp only [AgreeA] at h
+    exact ⟨fun _ => Or.inr ⟨Or.inl trivial, Or.inl trivial⟩, linesOk_both xs ys h.2⟩
+
+/-- **gridAlg_relW** (unconditional): for child-style lists that agree except at indices where both styles are
+absolutely positioned boxes, the two grid programs are equal up to the calls/`setLayout`s addressed to those children, up
+to `content_size`, and UP TO PANICS: a run that has panicked is related to every run of the other side -/
+theorem gridAlg_relW (style : Style α) (xs ys : List (Style α)) (inp : LayoutInput α) (h : AgreeA xs ys) :
+    GRelW (World.absE (absIdx xs) True True : World α) OutEqv
+      (computeGridLayoutE (GridStyle.ofStyle style) (xs.map GridChildStyle.ofStyle) inp)
+      (computeGridLayoutE (GridStyle.ofStyle style) (ys.map GridChildStyle.ofStyle) inp) :=
+  computeGridLayoutE_relW_agree True True style xs ys inp h (linesOk_both xs ys h)
+
+/-- `PRel` does not look at the tolerated panics -/
+theorem PRel.to_absEquivE {β γ : Type} {abs : Nat → Prop} {eL eR : Prop} {Q : β → γ → Prop} {p : ProgM α β}
+    {q : ProgM α γ} (h : PRel (World.absE abs eL eR : World α) Q p q) : C06.AbsEquiv abs Q p q := by
+  induction h with
+  | pure a b hab => exact .pure a b hab
+  | call i inp k1 k2 hi _ ih => exact .call i inp _ _ hi ih
+  | setLayout i lA lB k1 k2 hl _ ih => exact .setLayout i lA lB _ _ hl ih
+  | callL i inp k1 q hi _ ih => exact .callL i inp _ _ hi ih
+  | callR i inp p k2 hi _ ih => exact .callR i inp _ _ hi ih
+  | setL i l k1 q hi _ ih => exact .setL i l _ _ hi ih
+  | setR i l p k2 hi _ ih => exact .setR i l _ _ hi ih
+
+/-- from "related up to panics" to `AbsEquiv` of the two `gridAlg`s, when the tolerated panics cannot happen -/
+theorem gridAlg_absEquiv_of_relW (eL eR : Prop) (style : Style α) (xs ys : List (Style α)) (inp : LayoutInput α)
+    (h : AgreeA xs ys) (hl : LinesOk eL eR xs ys)
+    (hL : eL → NoErr (computeGridLayoutE (GridStyle.ofStyle style) (xs.map GridChildStyle.ofStyle) inp).run)
+    (hR : eR → NoErr (computeGridLayoutE (GridStyle.ofStyle style) (ys.map GridChildStyle.ofStyle) inp).run) :
+    AbsEquiv (absIdx xs) OutEqv (gridAlg style xs inp) (gridAlg style ys inp) := by
+  have hrel : GRel (World.absE (absIdx xs) eL eR : World α) OutEqv _ _ :=
+    (computeGridLayoutE_relW_agree eL eR style xs ys inp h hl).to_GRel hL hR
   unfold gridAlg computeGridLayout
-  refine PRel.to_absEquiv (PRel.bind hrel fun r r' hr => ?_)
+  refine PRel.to_absEquivE (PRel.bind hrel fun r r' hr => ?_)
   cases r with
   | ok a =>
     cases r' with
@@ -201,5 +391,66 @@ theorem gridAlg_absEquiv (style : Style α) (xs ys : List (Style α)) (inp : Lay
     cases r' with
     | ok b => exact hr.elim
     | error e' => exact PRel.pure _ _ (OutEqv.refl _)
+
+/-- **AbsBlind on runs that cannot panic**: no condition on the grid lines of the absolutely positioned children -/
+theorem gridAlg_absEquiv_noErr (style : Style α) (xs ys : List (Style α)) (inp : LayoutInput α) (h : AgreeA xs ys)
+    (hL : NoErr (computeGridLayoutE (GridStyle.ofStyle style) (xs.map GridChildStyle.ofStyle) inp).run)
+    (hR : NoErr (computeGridLayoutE (GridStyle.ofStyle style) (ys.map GridChildStyle.ofStyle) inp).run) :
+    AbsEquiv (absIdx xs) OutEqv (gridAlg style xs inp) (gridAlg style ys inp) :=
+  gridAlg_absEquiv_of_relW True True style xs ys inp h (linesOk_both xs ys h) (fun _ => hL) (fun _ => hR)
+
+theorem linesOk_of_linesAgree : ∀ (xs ys : List (Style α)), LinesAgree xs ys → LinesOk False False xs ys
+  | [], [], _ => trivial
+  | [], _ :: _, h => by simp only [LinesAgree] at h
+  | _ :: _, [], h => by simp only [LinesAgree] at h
+  | x :: xs, y :: ys, h => by
+    simp only [LinesAgree] at h
+    exact ⟨fun hv => Or.inl (h.1 hv), linesOk_of_linesAgree xs ys h.2⟩
+
+/-- **the same grid lines** (the partial theorem of before the repair): panics included, no side condition on the runs -/
+theorem gridAlg_absEquiv (style : Style α) (xs ys : List (Style α)) (inp : LayoutInput α) (h : AgreeA xs ys)
+    (hl : LinesAgree xs ys) :
+    AbsEquiv (absIdx xs) OutEqv (gridAlg style xs inp) (gridAlg style ys inp) :=
+  gridAlg_absEquiv_of_relW False False style xs ys inp h (linesOk_of_linesAgree xs ys hl) (fun e => e.elim)
+    (fun e => e.elim)
+
+/-- every absolutely positioned box of the list has `auto` grid lines in both axes -/
+def AbsAutoLines (cs : List (Style α)) : Prop :=
+  ∀ s ∈ cs, absVis s → s.grid.row = autoLine ∧ s.grid.column = autoLine
+
+theorem linesOk_autoR : ∀ (xs ys : List (Style α)), AgreeA xs ys → AbsAutoLines ys → LinesOk True False xs ys
+  | [], [], _, _ => trivial
+  | [], _ :: _, h, _ => by simp only [AgreeA] at h
+  | _ :: _, [], h, _ => by simp only [AgreeA] at h
+  | x :: xs, y :: ys, h, hy => by
+    simp only [AgreeA] at h
+    refine ⟨fun hv => Or.inr ⟨Or.inl trivial, Or.inr ?_⟩,
+      linesOk_autoR xs ys h.2 fun s hs => hy s (List.mem_cons_of_mem _ hs)⟩
+    rcases h.1 with ⟨_, hvy⟩ | ⟨hn, _⟩
+    · exact hy y List.mem_cons_self hvy
+    · exact absurd hv hn
+
+theorem linesOk_autoL : ∀ (xs ys : List (Style α)), AgreeA xs ys → AbsAutoLines xs → LinesOk False True xs ys
+  | [], [], _, _ => trivial
+  | [], _ :: _, h, _ => by simp only [AgreeA] at h
+  | _ :: _, [], h, _ => by simp only [AgreeA] at h
+  | x :: xs, y :: ys, h, hx => by
+    simp only [AgreeA] at h
+    exact ⟨fun hv => Or.inr ⟨Or.inr (hx x List.mem_cons_self hv), Or.inl trivial⟩,
+      linesOk_autoL xs ys h.2 fun s hs => hx s (List.mem_cons_of_mem _ hs)⟩
+
+/-- the left run cannot panic, the absolutely positioned boxes on the right have `auto` lines -/
+theorem gridAlg_absEquiv_autoR (style : Style α) (xs ys : List (Style α)) (inp : LayoutInput α) (h : AgreeA xs ys)
+    (hy : AbsAutoLines ys)
+    (hL : NoErr (computeGridLayoutE (GridStyle.ofStyle style) (xs.map GridChildStyle.ofStyle) inp).run) :
+    AbsEquiv (absIdx xs) OutEqv (gridAlg style xs inp) (gridAlg style ys inp) :=
+  gridAlg_absEquiv_of_relW True False style xs ys inp h (linesOk_autoR xs ys h hy) (fun _ => hL) (fun e => e.elim)
+
+/-- the right run cannot panic, the absolutely positioned boxes on the left have `auto` lines -/
+theorem gridAlg_absEquiv_autoL (style : Style α) (xs ys : List (Style α)) (inp : LayoutInput α) (h : AgreeA xs ys)
+    (hx : AbsAutoLines xs)
+    (hR : NoErr (computeGridLayoutE (GridStyle.ofStyle style) (ys.map GridChildStyle.ofStyle) inp).run) :
+    AbsEquiv (absIdx xs) OutEqv (gridAlg style xs inp) (gridAlg style ys inp) :=
+  gridAlg_absEquiv_of_relW False True style xs ys inp h (linesOk_autoL xs ys h hx) (fun e => e.elim) (fun _ => hR)
 
 end GridAbs
